@@ -5,7 +5,7 @@ _RULE = ("histories of 24-46 (thorough: 25-80) steps over one generated asset pa
          "active ones, usually both time-limited with different 20-90 s periods and time-based limits, and an inactive one, "
          "sometimes time-limited; small limits so they are hit; two deputies), "
          "5 actors + the module accounts; steps = create (plain multi-coin, incoming, outgoing, duplicates, ~10% malformed), "
-         "(incl. a small share whose recipient is a blocked module account or the htlc module account itself), in a third of the histories MsgUpdateParams steps (by the authority or a stranger; valid sets: limits raised or cut - also below the usage -, time-based limit, period, active flag, deputy, fee, swap and lock bounds, time-limited flag; and invalid sets; the property monitors of such a case stop after its first parameter change, the correspondence goes on), claim (right / wrong / malformed secret, by recipient or third party, repeated, after refund) and runs of block "
+         "(incl. a small share whose recipient is a blocked module account or the htlc module account itself), in a third of the histories MsgUpdateParams steps (by the authority or a stranger; valid sets: limits raised or cut - also below the usage -, time-based limit, period, active flag, deputy, fee, swap and lock bounds, time-limited flag; and invalid sets; assets removed from and put back into the parameters; the monitors use the stored parameters in force and stay on across rejected and compatible accepted changes, after an incompatible accepted change - limits cut below the usage, denoms removed - only the correspondence goes on for the rest of the case), claim (right / wrong / malformed secret, by recipient or third party, repeated, after refund) and runs of block "
          "boundaries with per-block time steps (every block is executed; time locks 50..120, thorough: a share up to 34560); "
          "the generator executes while drawing, so amounts sit at balance / limit boundaries, locks aim at shared expiry "
          "heights, claims land on expiration-1 / expiration / expiration+1 and time steps land on period-1ms / period / "
@@ -23,7 +23,7 @@ _ASSUME = ["theorem hypotheses (visible in Props/C03.v, Props/C04.v): params_ok 
            "escrow_empty (the htlc module account holds nothing at genesis), wf_op (a create message is not signed by a "
            "module account; the generator never produces such messages; every case is tested against these hypotheses "
            "by hyps_b inside Coq)",
-           "the theorems and the property monitors are about histories without asset-parameter changes (C04: while the parameters are unchanged); parameter changes are modelled and tied by the correspondence only",
+           "theorems and property monitors cover histories whose accepted parameter changes are compatible with the current usage (wf_run / compat_b: denoms kept, new limits >= current + incoming, ...); after an incompatible change the sums are proved to survive (InvCore) but the monitors are off and only the correspondence is checked",
            "nobody sends coins to the htlc module account outside the module's messages (donations)",
            "amounts stay below 2^256 (sdkmath.Int overflow is not modelled); time.Duration does not overflow"]
 
